@@ -15,6 +15,7 @@ import Mathlib.Tactic.NormNum
 import DarsiaProofs.Csc
 import DarsiaProofs.CscGeneral
 import DarsiaProofs.SaddleBridge
+import DarsiaProofs.SolverCache
 import DarsiaProps.C06
 import DarsiaGen.Dispatch
 namespace Darsia.C08
@@ -214,6 +215,56 @@ theorem accepted_spellings_handled :
 /-- unknown option values are refused at construction -/
 theorem documented_backends_complete :
     ∀ b ∈ Gen.Backend.all, b ∈ Gen.documentedBackends := by decide
+
+/-! ### the cached solver (`linear_solve(matrix, rhs, reuse_solver)`, `setup_*_solver`)
+
+`DarsiaModel.SolverCache`: the cached `self.linear_solver` per formulation × back-end (LU / AMG hierarchy = snapshot of the
+matrix at set-up; `CG(M)` = reference to `M`, which for "pressure" is the in-place updated `fully_reduced_jacobian`), a
+refinement of builder e's `Stateful.WObj` (C16). A solve reports the matrix whose operator the INNER solve of the formulation
+uses (`used`: full matrix / Schur system / pinned Schur system; the right-hand side, the reduced right-hand side and the flux
+recovery always belong to the current call, so a stale `used` yields a hybrid that solves neither system). -/
+
+open Darsia.SolverCache in
+/-- **reuse_sound**: after a call that set the solver up on matrix `m` (no reuse requested, or first use), a call with
+`reuse_solver = True` on the SAME matrix returns the solution of the current system, without a new set-up -/
+theorem reuse_sound {f : SolverCache.Formulation} {b : SolverCache.Backend} (h : ¬(f = .full ∧ b ≠ .direct))
+    (st : SolverCache.State) (m : MatId) (r0 : Bool) (hs : (!r0 || st.solver.isNone) = true) :
+    ∀ st1 o1, SolverCache.linearSolve f b st m r0 = .ok (st1, o1) →
+      ∀ st2 o2, SolverCache.linearSolve f b st1 m true = .ok (st2, o2) → o2.used = m ∧ o2.setup = false ∧ st2 = st1 :=
+  SolverCache.reuse_sound h st m r0 hs
+
+open Darsia.SolverCache in
+/-- **which stale combinations are possible, exactly**: the returned vector solves the system handed in unless reuse is
+requested, a solver exists, and it holds a snapshot of a different matrix -/
+theorem stale_iff {f : SolverCache.Formulation} {b : SolverCache.Backend} (h : ¬(f = .full ∧ b ≠ .direct))
+    (st : SolverCache.State) (m : MatId) (reuse : Bool) :
+    ∀ st' o, SolverCache.linearSolve f b st m reuse = .ok (st', o) →
+      (o.used = m ↔ ¬(reuse = true ∧ ∃ s m', st.solver = some s ∧ s.solves = some m' ∧ m' ≠ m)) :=
+  SolverCache.used_current_iff h st m reuse
+
+/-- negative witnesses: reuse after a matrix change returns the solution of the OLD system with the direct, the AMG and
+the flux-reduced CG solver (snapshots) … -/
+theorem reuse_after_matrix_change_is_stale :
+    ∀ p ∈ [(SolverCache.Formulation.full, SolverCache.Backend.direct), (.pressure, .direct), (.pressure, .amg),
+           (.fluxReduced, .direct), (.fluxReduced, .amg), (.fluxReduced, .cg)],
+      (SolverCache.run p.1 p.2 SolverCache.fresh [((1, 0), false), ((2, 0), true)]).map (fun r => r.2.map (·.used))
+        = .ok [(1, 0), (1, 0)] := by decide
+
+/-- … while "pressure" × CG can never be stale: along any call sequence on one object every returned vector solves the
+system handed in (only its preconditioner may belong to an older matrix) -/
+theorem pressure_cg_never_stale (calls : List (SolverCache.MatId × Bool)) :
+    ∀ st' os, SolverCache.run .pressure .cg SolverCache.fresh calls = .ok (st', os) →
+      ∀ p ∈ calls.zip os, p.2.used = p.1.1 :=
+  SolverCache.pressure_cg_never_stale calls SolverCache.fresh (by intro s hs; simp [SolverCache.fresh] at hs)
+
+open Darsia.SolverCache in
+/-- the snapshot solvers refine builder e's `WObj` (C16): same matrix, same set-up flag, related states -/
+theorem cache_refines_WObj {f : SolverCache.Formulation} {b : SolverCache.Backend} (h : ¬(f = .full ∧ b ≠ .direct))
+    (hlive : ¬(f = .pressure ∧ b = .cg)) (st : SolverCache.State) (w : Stateful.WObj) (hr : SolverCache.Rel st w)
+    (m : MatId) (reuse : Bool) :
+    ∃ st' o, SolverCache.linearSolve f b st m reuse = .ok (st', o) ∧
+      (o.used.1, o.used.2, o.setup) = (w.linearSolve m reuse).2 ∧ SolverCache.Rel st' (w.linearSolve m reuse).1 :=
+  SolverCache.refines_WObj h hlive st w hr m reuse
 
 /-! ### CSC surgery (`setup_eliminate_lagrange_multiplier`, `eliminate_lagrange_multiplier`)
 
